@@ -100,6 +100,9 @@ func runC18(c *Ctx) {
 	c.Floors["G"] = 45
 	c.Floors["L1"] = 60
 	c18Round3(c)
+	// a commit from a peer (block sync, a proposed block's last commit) is indexed slot by slot: the slot count is checked
+	// against the set before any slot is used (C02)
+	verifyCommitRules(c)
 
 	frameLengthRule(c)
 	// sanity panics behind a precondition: the caller establishes the precondition (a peer's catch-up vote may have
@@ -287,7 +290,6 @@ func runC18(c *Ctx) {
 	// ---- message validation checklists -----------------------------------------------------------------
 	maxParts := c.P.Const("types", "MaxBlockPartsCount")
 	maxVotes := c.P.Const("types", "MaxVotesCount")
-	partSize := c.P.Const("types", "BlockPartSizeBytes")
 	bitsOK := func(f string) Guard {
 		return G(f+".ValidateBasic() == nil (representation invariant)", IsNil(`^call:\(\*lib/common\.BitArray\)\.ValidateBasic\(m\.`+f+`\)$`))
 	}
@@ -330,9 +332,6 @@ func runC18(c *Ctx) {
 			ok = pathOf(in.(*ssa.Return).Results[0]) == "call:(*types.Vote).ValidateBasic(m.Vote)"
 		}
 		c.Check("G", fnName(fn)+"/is Vote.ValidateBasic()", ok, fn.Pos(), 1, "")
-	}
-	if fn := c.Fn("types", "Part", "ValidateBasic"); fn != nil {
-		c.Guarded(fn, "return nil", SuccessReturn(0, ""), G("len(part.Bytes) <= BlockPartSizeBytes", Cmp(`^call:len\(part\.Bytes\)$`, "<=", `^const:`+partSize+`$`)))
 	}
 	if fn := c.Fn("types", "Vote", "ValidateBasic"); fn != nil {
 		c.Guarded(fn, "return nil", SuccessReturn(0, ""),
